@@ -343,6 +343,7 @@ class BusRig:
     def attach(self, hello=True):
         p = self.new_protocol()
         c = RawClient(self, p)
+        c.said_hello = bool(hello)
         c.little = len(self.clients) % 2 == 0
         deliver(p, b'\0AUTH ANONYMOUS 7665726966\r\n')
         out = p.transport.take()
